@@ -137,6 +137,11 @@ func replayMigrate(c *core.Ctx, lfsBin string, b *behaviour, idx int) (*core.Vio
 			continue
 		}
 		switch a := s.str("a"); a {
+		case "chmod":
+			x, _ := s["x"].(bool)
+			if err := w.Chmod(s.str("b"), s.str("p"), x); err != nil {
+				return nil, fmt.Errorf("step %d %v: %v", i, s, err)
+			}
 		case "tag":
 			r := w.Env.GitDate(w.Clone, w.Now-1800, "tag", "-a", "-m", "annotated tag v1", "v1", s.str("b"))
 			if !r.OK() {
@@ -146,6 +151,27 @@ func replayMigrate(c *core.Ctx, lfsBin string, b *behaviour, idx int) (*core.Vio
 			if before == nil {
 				if err := snapshot(); err != nil {
 					return nil, err
+				}
+				// the history the harness built has the modes the specification says it has
+				if ex, ok := s["exec"].([]interface{}); ok {
+					for ci := range w.Commits {
+						want := map[string]bool{}
+						if ci < len(ex) {
+							for _, p := range toStrings(ex[ci]) {
+								want[p] = true
+							}
+						}
+						for subj, m := range modes {
+							if !strings.HasPrefix(subj, fmt.Sprintf("c%d ", ci+1)) {
+								continue
+							}
+							for p, mode := range m {
+								if (mode == "100755") != want[p] {
+									return nil, fmt.Errorf("world/spec mismatch: commit %q path %s has mode %s, spec exec=%v", subj, p, mode, want)
+								}
+							}
+						}
+					}
 				}
 			}
 			sel := toStrings(s["sel"])
@@ -288,7 +314,7 @@ func init() {
 			for _, s := range st {
 				actionsSeen[s.str("a")]++
 				switch s.str("a") {
-				case "merge", "tag":
+				case "merge", "tag", "chmod":
 					feat[s.str("a")] = true
 				case "commit":
 					feat["b:"+ReprName(s.str("blob"))] = true
@@ -315,7 +341,7 @@ func init() {
 		}); err != nil {
 			c.Infra("read behaviours: %v", err)
 		}
-		requireActions(c, "commit", "merge", "tag", "import", "export")
+		requireActions(c, "commit", "merge", "tag", "chmod", "import", "export")
 		keys := []string{}
 		for k := range byClass {
 			keys = append(keys, k)
@@ -338,11 +364,11 @@ func init() {
 		c.Set("traces_validated_against_impl", len(bs))
 		c.Set("evaluations", len(bs))
 		c.Set("distinct_nontrivial", len(bs))
-		c.Set("rule", "behaviours = per-edge output of spec/Migrate.tla for every edge ending in an import or an export (after an import); sampled round-robin over classes (command x selection size x features merge / tag / blob kinds / branch)")
+		c.Set("rule", "behaviours = per-edge output of spec/Migrate.tla for every edge ending in an import or an export (after an import); sampled round-robin over classes (command x selection size x features merge / tag / chmod / blob kinds / branch)")
 		for i := 0; i < len(bs); i += len(bs)/4 + 1 {
 			c.Sample(json.RawMessage(bs[i].raw))
 		}
-		c.Assume("--everything with --include of one path or *.bin; symlinks, executable files, nested .gitattributes, --above, --fixup, --no-rewrite, --include-ref/--exclude-ref are not yet modelled; .gitattributes written by migrate is treated as managed metadata and not compared")
+		c.Assume("--everything with --include of one path or *.bin; executable bit only through mode-only commits; symlinks, nested .gitattributes, --above, --fixup, --no-rewrite, --include-ref/--exclude-ref are not yet modelled; .gitattributes written by migrate is treated as managed metadata and not compared")
 	}
 }
 
